@@ -55,3 +55,20 @@ CHECKS["C12"] = {
         {"name": "httpserver", "pkg": "pkg/object/httpserver", "test": "TestVerifC12", "inject": [HTTPRIG]},
     ],
 }
+
+CHECKS["C05"] = {
+    "level": "exploration",
+    "technique": "bounded exhaustive enumeration of filter specs x client addresses (reference: net.IPNet.Contains + decision table) and of request histories x filter placements on the real mux",
+    "level_text": "all allow/block specs with <=2+<=2 entries from a 14-entry menu (and every prefix length /0../32, /0../128 around two anchors) x 165 client "
+                  "addresses (anchor +- one bit at every position, IPv4-mapped) decided by the real IPFilter equal the reference; all request histories up to the bound "
+                  "x 64 server/rule/path filter placements x cache sizes {0,1,16} on the real mux: denied => 4xx (403 if routed) and no handler, else equal to the filterless twin",
+    "level_note": "finite menus; client address taken from RemoteAddr / X-Forwarded-For / X-Real-IP via the real realip code",
+    "rule": "unit ipfilter: choice tree (allow subset, block subset, blockByDefault) and (family, prefix length, allow|block, default), each execution decides all clients; "
+            "unit mux: choice tree over histories of 36 requests; distinct_nontrivial = distinct (denied?, twin status) classes",
+    "bounds": {"quick": "block subsets <=1 entry; histories of length 2", "thorough": "block subsets <=2 entries; histories of length 3"},
+    "assumptions": [],
+    "units": [
+        {"name": "ipfilter", "pkg": "pkg/util/ipfilter", "test": "TestVerifC05ipfilter"},
+        {"name": "httpserver", "pkg": "pkg/object/httpserver", "test": "TestVerifC05mux", "inject": [HTTPRIG]},
+    ],
+}
